@@ -47,20 +47,21 @@ var shapes = map[string]shape{
 	"f": {2, true, []int{1}, []bool{true}},
 	"g": {1, false, []int{1, 2}, []bool{false, false}},
 	"h": {2, false, []int{1, 2, 1}, []bool{false, false, false}}, // the same data id twice in one chunk, full form
-	"k": {1, true, []int{1, 2}, []bool{true, false}},               // an aliased group followed by a new id in full form
-	"m": {2, false, []int{2, 1, 3}, []bool{true, true, false}},     // two aliased groups, then a third id in full form
+	"k": {1, true, []int{1, 2}, []bool{true, false}},             // an aliased group followed by a new id in full form
+	"m": {2, false, []int{2, 1, 3}, []bool{true, true, false}},   // two aliased groups, then a third id in full form
 }
 
 type params struct {
-	Seq     []string // shape names; "M1"/"M2" = metadata from source node 1/2
-	QoS     message.QoS
-	Unrel   bool
-	Predecl bool // D2 pre-registered with WithDownstreamDataIDs
-	F       int  // link failures (C04 thorough)
-	P       int
-	ReadInClose bool // the broker takes 1 s to answer the close request; the application reads a queued chunk meanwhile
-	HoldAck bool // the client's transport write stalls while an ack flush is under way, a second chunk is read meanwhile, then the link is cut
-	Stream  bool // a reader thread consumes while the broker keeps sending at intervals (early timer firing allowed: T=1)
+	Seq           []string // shape names; "M1"/"M2" = metadata from source node 1/2
+	QoS           message.QoS
+	Unrel         bool
+	Predecl       bool // D2 pre-registered with WithDownstreamDataIDs
+	F             int  // link failures (C04 thorough)
+	P             int
+	CloseInResume bool // the link is cut with an acknowledgement pending, the resume request is never answered, the application closes the stream
+	ReadInClose   bool // the broker takes 1 s to answer the close request; the application reads a queued chunk meanwhile
+	HoldAck       bool // the client's transport write stalls while an ack flush is under way, a second chunk is read meanwhile, then the link is cut
+	Stream        bool // a reader thread consumes while the broker keeps sending at intervals (early timer firing allowed: T=1)
 }
 
 func (p params) name() string {
@@ -72,6 +73,9 @@ func (p params) name() string {
 	}
 	if p.ReadInClose {
 		return fmt.Sprintf("readinclose-%s/P%d", strings.Join(p.Seq, ""), p.P)
+	}
+	if p.CloseInResume {
+		return fmt.Sprintf("closeinresume-%s/P%d", strings.Join(p.Seq, ""), p.P)
 	}
 	return fmt.Sprintf("%s/q%d/u%v/pre%v/F%d/P%d", strings.Join(p.Seq, ""), p.QoS, p.Unrel, p.Predecl, p.F, p.P)
 }
@@ -126,6 +130,8 @@ func scenarios(tier string) []vlib.Scenario {
 	add(params{Seq: []string{"a", "c"}, QoS: message.QoSReliable, P: 1, Stream: true})
 	add(params{Seq: []string{"a", "a", "b"}, QoS: message.QoSReliable, P: 1})
 	add(params{Seq: []string{"a", "c", "f"}, QoS: message.QoSReliable, P: 1})
+	// Close while the resume request is unanswered: nothing may follow the close request
+	add(params{Seq: []string{"a"}, QoS: message.QoSReliable, CloseInResume: true})
 	// a read that overlaps Close: what it returns is acknowledged, or it fails
 	add(params{Seq: []string{"a", "c"}, QoS: message.QoSReliable, ReadInClose: true})
 	add(params{Seq: []string{"a", "c"}, QoS: message.QoSReliable, ReadInClose: true, P: 1})
@@ -200,14 +206,15 @@ type readRes struct {
 }
 
 type world struct {
+	resumedAtClose int
 	kit.World
-	p       params
-	sent    []sent
-	reads   []readRes
-	closeErr error
-	cuts    int
+	p                params
+	sent             []sent
+	reads            []readRes
+	closeErr         error
+	cuts             int
 	closedBeforeAcks bool
-	state   *iscp.DownstreamState
+	state            *iscp.DownstreamState
 }
 
 // knownAliases reconstructs what the broker learnt from the acks it received so far.
@@ -326,6 +333,18 @@ func (w *world) readOne(kind string) {
 
 func (w *world) main() {
 	s := &sim.Script{Unreliable: w.p.Unrel}
+	if w.p.CloseInResume {
+		s.OnMessage = func(b *sim.Broker, c *sim.BConn, m message.Message) bool {
+			if _, ok := m.(*message.DownstreamResumeRequest); ok {
+				// answered only after the application has closed the stream
+				vsched.AfterFunc(4*time.Second, "h:late-resume-answer", func() {
+					vsched.Spawn("h:late-resume-answer", func() { b.HandleDefault(c, m) })
+				})
+				return true
+			}
+			return false
+		}
+	}
 	if w.p.ReadInClose {
 		s.OnMessage = func(b *sim.Broker, c *sim.BConn, m message.Message) bool {
 			if _, ok := m.(*message.DownstreamCloseRequest); ok {
@@ -353,6 +372,27 @@ func (w *world) main() {
 		return
 	}
 	w.Phase = "run"
+	if w.p.CloseInResume {
+		w.sendItem(0, w.p.Seq[0])
+		vsched.Quiesce()
+		w.readOne("chunk") // its acknowledgement is still buffered (flush interval 100 ms)
+		w.cuts++
+		w.B.Cut(w.B.Live())
+		vsched.Sleep(3*time.Second, "h:resume-pending")
+		w.Phase = "close"
+		cctx, ccancel := kit.Ctx(3 * time.Second)
+		w.resumedAtClose = w.Downs[0].Resumed
+		w.closeErr = w.Downs[0].D.Close(cctx)
+		ccancel()
+		vsched.Sleep(2*time.Second, "h:after-close")
+		w.Phase = "connclose"
+		xctx, xcancel := kit.Ctx(5 * time.Second)
+		w.Conn.Close(xctx)
+		xcancel()
+		w.B.Stop()
+		w.Phase = "done"
+		return
+	}
 	if w.p.ReadInClose {
 		w.sendItem(0, w.p.Seq[0])
 		vsched.Quiesce()
@@ -365,6 +405,7 @@ func (w *world) main() {
 		vsched.Go("h:closer", func() {
 			defer wg.Done()
 			cctx, ccancel := kit.Ctx(10 * time.Second)
+			w.resumedAtClose = w.Downs[0].Resumed
 			w.closeErr = w.Downs[0].D.Close(cctx)
 			ccancel()
 		})
@@ -400,6 +441,7 @@ func (w *world) main() {
 		wg.Wait()
 		w.Phase = "close"
 		cctx, ccancel := kit.Ctx(10 * time.Second)
+		w.resumedAtClose = w.Downs[0].Resumed
 		w.closeErr = w.Downs[0].D.Close(cctx)
 		ccancel()
 		vsched.Quiesce()
@@ -429,6 +471,7 @@ func (w *world) main() {
 		wg.Wait()
 		w.Phase = "close"
 		cctx, ccancel := kit.Ctx(10 * time.Second)
+		w.resumedAtClose = w.Downs[0].Resumed
 		w.closeErr = w.Downs[0].D.Close(cctx)
 		ccancel()
 		vsched.Quiesce()
@@ -473,6 +516,7 @@ func (w *world) main() {
 	st := w.Downs[0].D.State()
 	w.state = st
 	cctx, ccancel := kit.Ctx(10 * time.Second)
+	w.resumedAtClose = w.Downs[0].Resumed
 	w.closeErr = w.Downs[0].D.Close(cctx)
 	ccancel()
 	vsched.Quiesce()
@@ -739,13 +783,29 @@ func (w *world) oracleC04(v *vlib.Verdict, dev bool) {
 	}
 	// the harness cuts the link only at quiescence (nothing in flight): an acknowledgement that was still
 	// buffered, or whose write failed on the dead link, is owed after the resume - the client knows it was not sent
-	if w.closeErr == nil && w.cuts > 0 && len(d.Resumes) > 0 {
+	// (a stream that the application closes before its resume has completed cannot acknowledge anything any more)
+	if w.closeErr == nil && w.cuts > 0 && len(d.Resumes) > 0 && w.resumedAtClose > 0 {
 		for k, n := range consumed {
 			switch {
 			case acked[k] == 0:
 				v.Fail("C04.results", fmt.Sprintf("lost-with-outage/dev=%v", dev), "chunk (upstream %v, seq %d) was returned by a read, the link was cut at quiescence and the stream resumed, but its acknowledgement never reached the broker", k.up, k.seq)
 			case acked[k] > n:
 				v.Fail("C04.results", fmt.Sprintf("duplicated-with-outage/dev=%v", dev), "chunk (upstream %v, seq %d) was returned by %d reads but acknowledged %d times across the resume", k.up, k.seq, n, acked[k])
+			}
+		}
+	}
+	// (independent of how the broker attributes it: on the wire, nothing of the stream follows its close request)
+	closeSeen := map[int]bool{}
+	for _, e := range w.B.Events {
+		if e.Dir != "rx" {
+			continue
+		}
+		switch e.Msg.(type) {
+		case *message.DownstreamCloseRequest:
+			closeSeen[e.Conn] = true
+		case *message.DownstreamChunkAck:
+			if closeSeen[e.Conn] {
+				v.Fail("C04.close", fmt.Sprintf("ack-after-close-request/resumes=%d", min(len(d.Resumes), 1)), "a DownstreamChunkAck reached the broker after the DownstreamCloseRequest on incarnation %d", e.Conn)
 			}
 		}
 	}
@@ -775,11 +835,11 @@ var _ context.Context
 
 func main() {
 	vlib.Main(&vlib.Harness{
-		Property:  propID,
-		Scenarios: scenarios,
-		Config:    config,
-		Run:       run,
-		Rule:      "mode E: broker chunk sequences (length <=3 quick, <=4 thorough) over 6-7 shapes {upstream U1|U2 in full form or by alias} x {1-2 groups, data ids D1|D2 in full form or by alias}; an alias is valid only if the broker learnt it from a DownstreamChunkAck it received or from the pre-registered list, otherwise the chunk is an invalid probe; QoS reliable/partial/unreliable(+side channel); per item: read now or deferred, ack-flush interval elapsed or not (choices); metadata from two source nodes interleaved; C04: oracle over all DownstreamChunkAcks of the history incl. one link failure with resume (thorough)",
+		Property:    propID,
+		Scenarios:   scenarios,
+		Config:      config,
+		Run:         run,
+		Rule:        "mode E: broker chunk sequences (length <=3 quick, <=4 thorough) over 6-7 shapes {upstream U1|U2 in full form or by alias} x {1-2 groups, data ids D1|D2 in full form or by alias}; an alias is valid only if the broker learnt it from a DownstreamChunkAck it received or from the pre-registered list, otherwise the chunk is an invalid probe; QoS reliable/partial/unreliable(+side channel); per item: read now or deferred, ack-flush interval elapsed or not (choices); metadata from two source nodes interleaved; C04: oracle over all DownstreamChunkAcks of the history incl. one link failure with resume (thorough)",
 		Assumptions: []string{"the consumer keeps up (every item is read; at most 4 items are outstanding, far below the documented 1024-item buffering)"},
 	})
 }
